@@ -1,6 +1,8 @@
 // C10, quiescent half and the deterministic "step-interleaved" part of the
 // concurrent half: cursor enumeration vs the model in both directions, argument
 // validation, and early_abort detection of writes made between two cursor steps.
+#include <set>
+
 #include "treegen.h"
 
 using namespace vf;
@@ -43,6 +45,7 @@ int run_iscan(const Args& a) {
     uint64_t trees = a.num("trees", 80);
     uint64_t cursors = a.num("cursors", 60);
     uint64_t steppers = a.num("steppers", 20);
+    uint64_t bursts = a.num("bursts", 10);
     Report rep(a.str("prop", "C10"), "seq_iscan", seed);
     rep.set_rule("per tree (7 shape families): cursors with endpoints from stored keys/prefixes/successors/slice cuts, all endpoint kinds, both directions, "
                  "consumed to OK_SCAN_END or stopped after j steps; every produced (full_key,value) compared with the model interval in the requested "
@@ -62,7 +65,7 @@ int run_iscan(const Args& a) {
         ses.reenter();
         Model model;
         TreeGen tg(r, kg, a.num("maxkeys", 250), 24);
-        int family = static_cast<int>(t % 7);
+        int family = static_cast<int>(t % 8);
         tg.build(ses.tok, storage, model, family);
         rep.count("trees");
         std::vector<std::string> keys;
@@ -258,6 +261,136 @@ int run_iscan(const Args& a) {
                 if (rc == status::WARN_CONCURRENT_OPERATIONS) { rep.count("early_abort_without_top_modification"); }
             }
             if (ctx != nullptr) { yk::iscan_close(ctx); }
+        }
+        // ---------------- paused cursor (no early_abort) with bursts of writes between two steps
+        // Deterministic realisation of "writers that split, empty or replace the root of a next layer the cursor is
+        // inside or about to enter": while the cursor is paused the harness fills / drains the layer the cursor is
+        // in and the layers above it, so that several structural changes fall into one pause.
+        for (uint64_t bidx = 0; bidx < bursts && !model.empty(); ++bidx) {
+            bool r2l = r.chance(1, 2);
+            Model initial = model;
+            std::set<std::string> removed;
+            yk::iscan_context* ctx = nullptr;
+            void* v = nullptr;
+            ses.reenter();
+            alloc::watch_window(true);
+            status rc = yk::iscan_open(storage, "", scan_endpoint::INF, "", scan_endpoint::INF, r2l, false, ctx, v);
+            alloc::watch_window(false);
+            std::vector<std::string> produced;
+            uint64_t nbursts = 0;
+            bool bad = false;
+            std::vector<std::string> burst_log;
+            while (rc == status::OK && !bad) {
+                std::string cur = ctx->full_key();
+                auto mit = model.find(cur);
+                if (mit == model.end() && initial.count(cur) == 0U) {
+                    rep.violation(std::string("iscan:paused:") + (r2l ? "backward" : "forward") + ":reported-key-was-never-stored", "cursor reported a key that was never stored",
+                                  JObj().str("key", hex(cur)).num("tree", t).str("family", TreeGen::family_name(family)).raw("bursts", jarr(burst_log)).done());
+                    bad = true;
+                    break;
+                }
+                if (!produced.empty() && ((!r2l && cur <= produced.back()) || (r2l && cur >= produced.back()))) {
+                    rep.violation(std::string("iscan:paused:") + (r2l ? "backward" : "forward") + ":not-strictly-monotone", "cursor keys not strictly monotone",
+                                  JObj().str("prev", hex(produced.back())).str("cur", hex(cur)).num("tree", t).raw("bursts", jarr(burst_log)).done());
+                    bad = true;
+                    break;
+                }
+                produced.push_back(cur);
+                std::size_t depth = ctx->stack_size();
+                if (r.chance(1, 4) && nbursts < 6) {
+                    ++nbursts;
+                    wses.reenter();
+                    unsigned kind = static_cast<unsigned>(r.below(5));
+                    // prefix of the layer the cursor is in, and of the layer above
+                    std::size_t lp = (depth - 1) * 8;
+                    if (lp > cur.size()) { lp = cur.size() / 8 * 8; }
+                    std::string layer_prefix = cur.substr(0, lp);
+                    std::string upper_prefix = lp >= 8 ? cur.substr(0, lp - 8) : std::string();
+                    auto ins = [&](const std::string& k) {
+                        if (model.count(k) != 0U) { return; }
+                        if (yput(wses.tok, storage, k, "burst") == status::OK) { model[k] = "burst"; }
+                    };
+                    auto rem = [&](const std::string& k) {
+                        if (yk::remove(wses.tok, storage, k) == status::OK) {
+                            model.erase(k);
+                            removed.insert(k);
+                        }
+                    };
+                    std::size_t n = r.range(8, 40);
+                    const char* kname = "";
+                    if (kind == 0) {
+                        kname = "fill-current-layer";
+                        for (std::size_t i = 0; i < n; ++i) {
+                            std::string k = layer_prefix;
+                            std::size_t sl = r.range(1, 8);
+                            for (std::size_t j = 0; j < sl; ++j) { k.push_back(static_cast<char>(kg.abyte())); }
+                            ins(k);
+                        }
+                    } else if (kind == 1) {
+                        kname = "fill-upper-layer";
+                        for (std::size_t i = 0; i < n; ++i) {
+                            std::string k = upper_prefix;
+                            std::size_t sl = r.range(1, 8);
+                            for (std::size_t j = 0; j < sl; ++j) { k.push_back(static_cast<char>(kg.abyte())); }
+                            ins(k);
+                        }
+                    } else if (kind == 2) {
+                        kname = "fill-both";
+                        for (std::size_t i = 0; i < n; ++i) {
+                            std::string k = (i % 2 == 0) ? layer_prefix : upper_prefix;
+                            // near the link / near the current key: share most of the slice
+                            std::string base = (i % 2 == 0) ? cur.substr(lp, std::min<std::size_t>(8, cur.size() - lp)) : (lp >= 8 ? cur.substr(lp - 8, 8) : std::string());
+                            if (!base.empty()) { base.back() = static_cast<char>(static_cast<unsigned char>(base.back()) + static_cast<unsigned char>(r.range(1, 200))); }
+                            if (r.chance(1, 2) && base.size() > 1) { base.resize(base.size() - 1); }
+                            k += base;
+                            if (k != cur) { ins(k); }
+                        }
+                    } else if (kind == 3) {
+                        kname = "drain-current-layer-except-cursor";
+                        std::vector<std::string> victims;
+                        for (auto it = model.lower_bound(layer_prefix); it != model.end() && it->first.compare(0, lp, layer_prefix) == 0; ++it) {
+                            if (it->first != cur && r.chance(3, 4)) { victims.push_back(it->first); }
+                        }
+                        for (auto& k : victims) { rem(k); }
+                    } else {
+                        kname = "remove-produced-and-refill";
+                        for (auto& k : produced) {
+                            if (k != cur && r.chance(1, 2)) { rem(k); }
+                        }
+                        for (std::size_t i = 0; i < n / 2; ++i) {
+                            std::string k = layer_prefix;
+                            std::size_t sl = r.range(1, 8);
+                            for (std::size_t j = 0; j < sl; ++j) { k.push_back(static_cast<char>(kg.abyte())); }
+                            ins(k);
+                        }
+                    }
+                    wses.leave();
+                    burst_log.push_back(JObj().str("kind", kname).str("at_key", hex(cur)).num("stack_depth", depth).done());
+                    rep.count(std::string("bursts_") + kname);
+                    rep.distinct(mix64(0xb0057, mix64(hash_bytes(kname), mix64(r2l ? 1 : 0, std::min<std::size_t>(depth, 4)))));
+                }
+                rc = yk::iscan_next(ctx, v);
+            }
+            if (ctx != nullptr) { yk::iscan_close(ctx); }
+            rep.eval();
+            rep.count("paused_cursors");
+            if (bad) { continue; }
+            if (rc != status::OK_SCAN_END) {
+                rep.violation("iscan:paused:status", "cursor ended with " + st(rc), "{}");
+                continue;
+            }
+            // every key that was present for the whole iteration must have been produced
+            std::set<std::string> pset(produced.begin(), produced.end());
+            for (auto& [k, val] : initial) {
+                if (removed.count(k) != 0U) { continue; }
+                if (pset.count(k) == 0U) {
+                    rep.violation(std::string("iscan:paused:") + (r2l ? "backward" : "forward") + ":present-key-missing",
+                                  "a key that was present during the whole (paused) iteration was not produced",
+                                  JObj().str("key", hex(k)).num("tree", t).str("family", TreeGen::family_name(family)).num("produced", produced.size()).num("initial_keys", initial.size()).raw("bursts", jarr(burst_log)).done());
+                    break;
+                }
+            }
+            if (nbursts != 0) { rep.count("paused_cursors_with_bursts"); }
         }
         // the tree must still be coherent after the interleaved writes
         ses.leave();
